@@ -79,10 +79,8 @@ func profileFor(prop string) *Profile {
 	if prop == "C11" {
 		p.HugeFreq = 0.08
 	}
-	switch prop {
-	case "C01", "C02", "C06", "C07", "C09", "C10", "C11", "C14", "C15", "C16", "C20":
-		p.MultiToken = 0.12
-	}
+	// the multi-token dimension is orthogonal to every property: all profiles spend a minority of their runs on it
+	p.MultiToken = 0.12
 	if v := os.Getenv("VERIF_MULTI"); v != "" { // experiments only: the share of multi-token runs
 		if f, err := strconv.ParseFloat(v, 64); err == nil {
 			p.MultiToken = f
